@@ -14,10 +14,18 @@ Restart == d' = <<>> /\ inited' = FALSE /\ mem' = <<>> /\ touched' = {} /\ ev' =
    it hands to the library and subtracts it from every address the library reports, so the same model decides tables
    that straddle 2^16, 2^31 or end just below 2^32.  (No area reaches 2^32 itself and no request wraps.)     *)
 Rebase == UNCHANGED vars /\ ev' = [op |-> "abase", a |-> e.a, o |-> <<0>>, alts |-> {<<0>>}]
+(* tinitbig n be: a table the harness builds itself - one memory-backed area [0, n) with n u16 registers, register j at address j
+   with default (7 j) mod 2^16: more registers than a 16-bit handle can name.  Well-formed by construction. *)
+BigTable(n, b) == [be |-> b,
+                   areas |-> <<[base |-> 0, size |-> n, rd |-> 1, wr |-> 1, skip |-> 0, hasw |-> 1, kind |-> 0]>>,
+                   regs |-> [j \in 1..n |-> [ty |-> 0, addr |-> j - 1, ck |-> 0, lo |-> <<0>>, hi |-> <<0>>, def |-> <<((j - 1) * 7) % 65536>>]]]
+TInitBig(n, b) == /\ d' = BigTable(n, b) /\ touched' = {} /\ inited' = TRUE /\ mem' = <<[j \in 1..n |-> ((j - 1) * 7) % 65536]>>
+                  /\ ev' = [op |-> "tinitbig", a |-> <<n, b>>, o |-> <<0, 0, n - 1, n>>, alts |-> {<<0, 0, n - 1, n>>}]
 V(ty, w4) == LastN(w4, Size(ty))
 Step == CASE e.op = "@" -> Restart
           [] e.op = "abase" -> Rebase
           [] e.op = "tinit" -> TInit(Unflatten(e.a))
+          [] e.op = "tinitbig" -> TInitBig(e.a[1], e.a[2])
           [] e.op = "set" -> Set(e.a[1], e.a[3], V(e.a[3], SubSeq(e.a, 4, 7)), e.a[2])
           [] e.op = "get" -> Get(e.a[1])
           [] e.op = "sweep16" -> Sweep16(e.a[1], e.a[2])
@@ -37,7 +45,7 @@ Step == CASE e.op = "@" -> Restart
           [] OTHER -> FALSE
 Unchecked(x) == x.op \in {"corrupt", "mcopy", "hexstr"} \/ (x.op \in {"set", "sweep16"} /\ x.a[2] = 1)       \* out-of-band or unchecked modification
 TNext == /\ l <= Len(TraceLog) /\ l' = l + 1 /\ Step
-         /\ dirty' = (IF e.op \in {"sanitise", "tinit", "@"} THEN FALSE ELSE dirty \/ Unchecked(e))
+         /\ dirty' = (IF e.op \in {"sanitise", "tinit", "tinitbig", "@"} THEN FALSE ELSE dirty \/ Unchecked(e))
          /\ (e.op # "@" => e.o \in ev'.alts /\ e.asan = 0)
 TSpec == TInitS /\ [][TNext]_<<vars, ev, l, dirty>>
 (* constraints hold in every state reached by checked operations; corruption is flagged by the driver *)
